@@ -85,12 +85,14 @@ Proof. exact report_v2_as_given. Qed.
 Theorem c03_no_collision_decidable : forall c, no_collision_b c = true -> ~ label_collision c.
 Proof. exact no_collision_b_sound. Qed.
 
-(* "created flag as given": user_items carries claim_created, which is the supplied flag for every label except the
-   deprecated stds.schema-org.CreativeWork, whose arm in to_claim drops it (open class F-CW-CREATED) *)
-Theorem c03_created_flag_kept : forall a, is_creative_work (ad_label a) = false -> claim_created a = ad_created a.
+(* "created flag as given": user_items carries claim_created, which is the supplied flag for every label — including the
+   deprecated stds.schema-org.CreativeWork, whose arm dropped it before fix 937eabecd (repaired class F-CW-CREATED) *)
+Theorem c03_created_flag_kept : forall a, claim_created a = ad_created a.
 Proof. exact created_kept. Qed.
-Theorem c03_creative_work_created_refuted : claim_created (mkA "stds.schema-org.CreativeWork" true true) = false.
-Proof. exact creative_work_created_refuted. Qed.
+Theorem c03_creative_work_created_fixed :
+  map ra_view (r_assertions (sign_report cw_witness "c2pa.hash.data"))
+  = [("stds.schema-org.CreativeWork", true, true, Some 1%nat); ("c2pa.actions.v2", false, false, Some 0%nat)].
+Proof. exact creative_work_created_fixed. Qed.
 
 (* claim v1: supplied order, no created attribution *)
 Theorem c03_report_v1_as_given :
